@@ -55,7 +55,11 @@ pub fn gen_doc(rng: &mut Rng, depth: usize) -> Value {
     if depth == 0 || rng.chance(1, 4) {
         return gen_scalar(rng);
     }
-    match rng.below(10) {
+    match rng.below(11) {
+        10 => {
+            let falsy = [Value::Bool(false), Value::String(String::new()), Value::Array(vec![]), Value::Object(Map::new())];
+            Value::Array((0..rng.below(3) + 1).map(|_| falsy[rng.below(4)].clone()).collect())
+        }
         0 => Value::Array(vec![]),
         1 => Value::Object(Map::new()),
         2 | 3 | 4 => {
@@ -270,14 +274,32 @@ impl<'a> TreeGen<'a> {
     fn predicate(&mut self, elem: &Value, depth: usize) -> Pipeline {
         // comparisons against values that occur in the element make filters selective
         let d = depth.saturating_sub(1);
-        match self.rng.below(6) {
+        match self.rng.below(7) {
             0 => self.subexpr(elem, d),
             1 => vec![Step::Not(self.subexpr(elem, d))],
+            6 => {
+                // a bare projection as predicate: truthy iff the projected array is non-empty
+                let mut p = vec![Step::Field(self.existing_key(elem))];
+                let kind = match self.rng.below(3) {
+                    0 => Kind::ListWild,
+                    1 => Kind::Flatten,
+                    _ => Kind::Slice(None, Some(self.rng.range(0, 3)), 1),
+                };
+                p.push(Step::Project(kind, vec![], (0, 0)));
+                p
+            }
             _ => {
                 let l = self.subexpr(elem, d);
                 let lv = self.eval(&l, elem);
-                let r = if self.rng.chance(1, 2) && !lv.is_null() && !lv.is_object() && !lv.is_array() {
-                    vec![Step::Literal(lv)]
+                let r = if self.rng.chance(1, 2) && !lv.is_null() {
+                    // containers too: the same value, or a proper prefix of an array
+                    match &lv {
+                        Value::Array(a) if !a.is_empty() && self.rng.chance(1, 2) => {
+                            let k = self.rng.below(a.len());
+                            vec![Step::Literal(Value::Array(a[..k].to_vec()))]
+                        }
+                        _ => vec![Step::Literal(lv)],
+                    }
                 } else if self.rng.chance(1, 2) {
                     vec![Step::Literal(gen_scalar(self.rng))]
                 } else {
